@@ -88,8 +88,8 @@ def evalDigits (radix : Nat) : Nat → List Nat → Nat
 def pieceValue (attr : Bool) : Piece → Option Char
   | .lit c => some (if attr && (c == '\t' || c == '\n') then ' ' else c)
   | .named name => namedEntity name
-  | .dec ds => charOfNat? (evalDigits 10 0 ds)
-  | .hex ds => charOfNat? (evalDigits 16 0 (ds.map (·.1)))
+  | .dec ds => xmlCharOfNat? (evalDigits 10 0 ds)
+  | .hex ds => xmlCharOfNat? (evalDigits 16 0 (ds.map (·.1)))
   | .cr => some (if attr then ' ' else '\n')
   | .crlf => some (if attr then ' ' else '\n')
 
@@ -97,12 +97,12 @@ def valueOf (attr : Bool) (ps : List Piece) : Str := ps.filterMap (pieceValue at
 
 /-- One piece is well spelled: literals are not `&` or CR (those need a reference / are line
     ends), names are names of predefined entities, digit lists are non-empty lists of digits
-    that denote a `char`. -/
+    that denote an XML `Char`. -/
 def Piece.ok : Piece → Prop
   | .lit c => c ≠ '&' ∧ c ≠ '\r'
   | .named name => ';' ∉ name ∧ (∀ r, name ≠ '#' :: r) ∧ (namedEntity name).isSome
-  | .dec ds => ds ≠ [] ∧ (∀ d ∈ ds, d < 10) ∧ (charOfNat? (evalDigits 10 0 ds)).isSome
-  | .hex ds => ds ≠ [] ∧ (∀ d ∈ ds, d.1 < 16) ∧ (charOfNat? (evalDigits 16 0 (ds.map (·.1)))).isSome
+  | .dec ds => ds ≠ [] ∧ (∀ d ∈ ds, d < 10) ∧ (xmlCharOfNat? (evalDigits 10 0 ds)).isSome
+  | .hex ds => ds ≠ [] ∧ (∀ d ∈ ds, d.1 < 16) ∧ (xmlCharOfNat? (evalDigits 16 0 (ds.map (·.1)))).isSome
   | .cr => True
   | .crlf => True
 
@@ -154,16 +154,19 @@ theorem parseDigits_map (radix : Nat) (hr : 1 ≤ radix) (ch : Nat → Char)
     simp only [this, if_true]
     exact ih _ (fun x hx => hd x (by simp [hx])) hlt
 
-theorem charOfNat?_lt {n : Nat} (h : (charOfNat? n).isSome) : n < 2 ^ 32 := by
-  unfold charOfNat? at h
+theorem charOfNat?_lt {n : Nat} (h : (xmlCharOfNat? n).isSome) : n < 2 ^ 32 := by
+  unfold xmlCharOfNat? at h
   split at h
-  · rename_i hv
-    rcases hv with hv | ⟨_, hv⟩ <;> omega
+  · unfold charOfNat? at h
+    split at h
+    · rename_i hv
+      rcases hv with hv | ⟨_, hv⟩ <;> omega
+    · simp at h
   · simp at h
 
 theorem decode_dec (ds : List Nat) (hne : ds ≠ []) (hd : ∀ d ∈ ds, d < 10)
-    (hc : (charOfNat? (evalDigits 10 0 ds)).isSome) :
-    decodeEntity ('#' :: ds.map decChar) = charOfNat? (evalDigits 10 0 ds) := by
+    (hc : (xmlCharOfNat? (evalDigits 10 0 ds)).isSome) :
+    decodeEntity ('#' :: ds.map decChar) = xmlCharOfNat? (evalDigits 10 0 ds) := by
   have hp : parseDigits 10 0 (ds.map decChar) = some (evalDigits 10 0 ds) :=
     parseDigits_map 10 (by omega) decChar (fun d h => digitVal_decChar ⟨d, h⟩) ds 0 hd (charOfNat?_lt hc)
   match ds, hne, hd, hp with
@@ -181,14 +184,11 @@ theorem decode_dec (ds : List Nat) (hne : ds ≠ []) (hd : ∀ d ∈ ds, d < 10)
     · unfold parseU32
       split
       · rename_i heq; cases heq
-      · rename_i r heq
-        simp only [List.cons.injEq] at heq
-        exact absurd heq.1 h2
       · rw [hp]; rfl
 
 theorem decode_hex (ds : List (Nat × Bool)) (hne : ds ≠ []) (hd : ∀ d ∈ ds, d.1 < 16)
-    (hc : (charOfNat? (evalDigits 16 0 (ds.map (·.1)))).isSome) :
-    decodeEntity ('#' :: 'x' :: ds.map hexChar) = charOfNat? (evalDigits 16 0 (ds.map (·.1))) := by
+    (hc : (xmlCharOfNat? (evalDigits 16 0 (ds.map (·.1)))).isSome) :
+    decodeEntity ('#' :: 'x' :: ds.map hexChar) = xmlCharOfNat? (evalDigits 16 0 (ds.map (·.1))) := by
   have hmap : ds.map hexChar = (ds.map (·.1)).zipWith (fun v d => hexChar (v, d.2)) ds := by
     clear hne hd hc
     induction ds with
@@ -221,9 +221,6 @@ theorem decode_hex (ds : List (Nat × Bool)) (hne : ds ≠ []) (hd : ∀ d ∈ d
     unfold parseU32
     split
     · rename_i heq; cases heq
-    · rename_i r heq
-      simp only [List.cons.injEq] at heq
-      exact absurd heq.1 h2
     · rw [hp0]; rfl
 
 theorem not_mem_map_decChar (ds : List Nat) (hd : ∀ d ∈ ds, d < 10) : ';' ∉ ds.map decChar := by
